@@ -1,6 +1,7 @@
 pub mod c01;
 pub mod c02;
 pub mod c03;
+pub mod c06;
 pub mod c07;
 pub mod c08;
 pub mod c09;
@@ -24,6 +25,7 @@ pub fn dispatch(prop: &str) -> Option<(RunFn, ReplayFn)> {
         "C01" => (c01::run, c01::replay),
         "C02" => (c02::run, c02::replay),
         "C03" => (c03::run, c03::replay),
+        "C06" => (c06::run, c06::replay),
         "C07" => (c07::run, c07::replay),
         "C08" => (c08::run, c08::replay),
         "C09" => (c09::run, c09::replay),
